@@ -23,7 +23,10 @@ type raceResult struct {
 	err error
 }
 
-func realSendLoop(p *v2transport.Peer, s []packet, who string, out chan<- raceResult) {
+func realSendLoop(p *v2transport.Peer, s []packet, peerConn *memconn.Conn, who string, out chan<- raceResult) {
+	// once everything is written the receiving end must never have to wait again: a read that would block from
+	// now on is a stall and surfaces as memconn.ErrWouldBlock instead of hanging
+	defer peerConn.SetNonBlocking(true)
 	defer func() {
 		if r := recover(); r != nil {
 			out <- raceResult{who, fmt.Errorf("panic: %v", r)}
@@ -61,7 +64,8 @@ func realRecvLoop(p *v2transport.Peer, s []packet, who string, out chan<- raceRe
 	out <- raceResult{who, nil}
 }
 
-func refSendLoop(c io.Writer, tx *ref.PacketCipher, s []packet, who string, out chan<- raceResult) {
+func refSendLoop(c io.Writer, tx *ref.PacketCipher, s []packet, peerConn *memconn.Conn, who string, out chan<- raceResult) {
+	defer peerConn.SetNonBlocking(true)
 	for i, pk := range s {
 		if _, err := c.Write(tx.EncPacket(pk.contents, nil, pk.ignore)); err != nil {
 			out <- raceResult{who, fmt.Errorf("write %d: %w", i, err)}
@@ -73,24 +77,22 @@ func refSendLoop(c io.Writer, tx *ref.PacketCipher, s []packet, who string, out 
 
 func refRecvLoop(c io.Reader, rx, shadow *ref.PacketCipher, s []packet, who string, out chan<- raceResult) {
 	for i, pk := range s {
-		l := make([]byte, 3)
-		if _, err := io.ReadFull(c, l); err != nil {
-			out <- raceResult{who, fmt.Errorf("read length %d: %w", i, err)}
+		// the specification fixes the exact bytes of the next packet: read that many and compare first, so that a
+		// sender that deviates cannot make this loop wait for a mis-decoded length
+		want := shadow.EncPacket(pk.contents, nil, pk.ignore)
+		got := make([]byte, len(want))
+		if _, err := io.ReadFull(c, got); err != nil {
+			out <- raceResult{who, fmt.Errorf("read packet %d: %w", i, err)}
 			return
 		}
-		n := rx.DecLength(l)
-		body := make([]byte, 1+n+16)
-		if _, err := io.ReadFull(c, body); err != nil {
-			out <- raceResult{who, fmt.Errorf("read body %d: %w", i, err)}
+		if !bytes.Equal(want, got) {
+			out <- raceResult{who, fmt.Errorf("packet %d: ciphertext differs from the specification at offset %d", i, firstDiff(got, want))}
 			return
 		}
-		if want := shadow.EncPacket(pk.contents, nil, pk.ignore); !bytes.Equal(want, append(l, body...)) {
-			out <- raceResult{who, fmt.Errorf("packet %d: ciphertext differs from the specification", i)}
-			return
-		}
-		hdr, got, ok := rx.DecBody(body, nil)
-		if !ok || (hdr&ref.IgnoreBit != 0) != pk.ignore || !bytes.Equal(got, pk.contents) {
-			out <- raceResult{who, fmt.Errorf("packet %d: reference cannot decrypt / contents differ (ok=%v)", i, ok)}
+		n := rx.DecLength(got[:3])
+		hdr, pt, ok := rx.DecBody(got[3:], nil)
+		if n != len(pk.contents) || !ok || (hdr&ref.IgnoreBit != 0) != pk.ignore || !bytes.Equal(pt, pk.contents) {
+			out <- raceResult{who, fmt.Errorf("packet %d: reference cannot decrypt / contents differ (ok=%v len=%d)", i, ok, n)}
 			return
 		}
 	}
@@ -162,6 +164,7 @@ func raceFamilies(c *mon.Ctx) {
 			go func() {
 				defer wg.Done()
 				defer guard(&errs[0], ca)
+				defer cb.SetNonBlocking(true)
 				if errs[0] = a.InitiateV2Handshake(cfg.GarbageI); errs[0] == nil {
 					errs[0] = a.CompleteHandshake(true, cfg.DecoysI, netOf(cfg.Magic))
 				}
@@ -172,6 +175,7 @@ func raceFamilies(c *mon.Ctx) {
 			go func() {
 				defer wg.Done()
 				defer guard(&errs[1], cb)
+				defer ca.SetNonBlocking(true)
 				if errs[1] = b.RespondV2Handshake(cfg.GarbageR, netOf(cfg.Magic)); errs[1] == nil {
 					errs[1] = b.CompleteHandshake(false, cfg.DecoysR, netOf(cfg.Magic))
 				}
@@ -184,9 +188,11 @@ func raceFamilies(c *mon.Ctx) {
 				k.Failf("concurrent:real-real:handshake", "initiator: %v, responder: %v", errs[0], errs[1])
 				return
 			}
-			go realSendLoop(a, si, "initiator-send", res)
+			ca.SetNonBlocking(false)
+			cb.SetNonBlocking(false)
+			go realSendLoop(a, si, cb, "initiator-send", res)
 			go realRecvLoop(b, si, "responder-recv", res)
-			go realSendLoop(b, sr, "responder-send", res)
+			go realSendLoop(b, sr, ca, "responder-send", res)
 			go realRecvLoop(a, sr, "initiator-recv", res)
 		default:
 			realInit := mode == "real-init"
@@ -200,6 +206,7 @@ func raceFamilies(c *mon.Ctx) {
 			go func() {
 				defer wg.Done()
 				defer guard(&e1, ca)
+				defer cb.SetNonBlocking(true)
 				if realInit {
 					if e1 = p.InitiateV2Handshake(cfg.GarbageI); e1 == nil {
 						e1 = p.CompleteHandshake(true, cfg.DecoysI, netOf(cfg.Magic))
@@ -216,6 +223,7 @@ func raceFamilies(c *mon.Ctx) {
 			go func() {
 				defer wg.Done()
 				defer guard(&e2, cb)
+				defer ca.SetNonBlocking(true)
 				g, d := cfg.GarbageR, cfg.DecoysR
 				if !realInit {
 					g, d = cfg.GarbageI, cfg.DecoysI
@@ -240,9 +248,11 @@ func raceFamilies(c *mon.Ctx) {
 			}
 			// the real peer's direction is also checked byte for byte against the specification
 			shadow := ep.Recv.Clone()
-			go realSendLoop(p, fromReal, "real-send", res)
+			ca.SetNonBlocking(false)
+			cb.SetNonBlocking(false)
+			go realSendLoop(p, fromReal, cb, "real-send", res)
 			go refRecvLoop(cb, ep.Recv, shadow, fromReal, "reference-recv", res)
-			go refSendLoop(cb, ep.Send, fromRef, "reference-send", res)
+			go refSendLoop(cb, ep.Send, fromRef, ca, "reference-send", res)
 			go realRecvLoop(p, fromRef, "real-recv", res)
 		}
 		ok := report(4)
